@@ -23,17 +23,58 @@ func RandomHistories(w *WorldJSON, seed int64, n, depth int, routers []string, f
 			if rng.Intn(3) == 0 {
 				cfg.SessSt = "sess-" + fmt.Sprint(i)
 			}
+			if focus == "exchange" || focus == "all" {
+				if rng.Intn(6) == 0 {
+					cfg.Policy.Deny = true
+				}
+				cfg.Policy.DefType = []string{"", "", "refresh", "access"}[rng.Intn(4)]
+				cfg.Policy.Imp = []string{"", "", "u2"}[rng.Intn(3)]
+				cfg.Policy.Drop = []string{"", "email"}[rng.Intn(2)]
+			}
+			if focus == "clientauth" && rng.Intn(4) == 0 {
+				cfg.CC, cfg.TE, cfg.Dev = rng.Intn(2) == 0, rng.Intn(2) == 0, rng.Intn(2) == 0
+			}
 			d := NewDriver(w, cfg)
 			g := &gen{rng: rng, d: d, w: w, focus: focus}
 			id := fmt.Sprintf("rand-%d-%d", seed, i)
 			tw.Emit(M{"op": "Reset", "beh": id, "cfg": cfg, "args": M{}, "out": NoOut()}, nil)
+			step := 0
+			emit := func(op string, args M) M {
+				out := d.Exec(op, args)
+				step++
+				tw.Emit(M{"op": op, "beh": id, "step": step, "router": r, "args": args, "out": out}, d.LastRaw)
+				return out
+			}
+			// productive prefix: token-centred mixes start from completed code flows of one or two clients
+			if focus == "exchange" || focus == "tokenuse" || focus == "refresh" || focus == "logout" || focus == "issue" {
+				for _, c := range [][]string{{"cw"}, {"cx"}, {"cw", "cx"}, {"cx", "cp"}, {"cj", "cw"}}[rng.Intn(5)] {
+					g.codeFlow(c, emit)
+				}
+			}
 			for s := 0; s < depth; s++ {
 				op, args := g.next()
-				out := d.Exec(op, args)
-				tw.Emit(M{"op": op, "beh": id, "step": s + 1, "router": r, "args": args, "out": out}, d.LastRaw)
+				emit(op, args)
 			}
 		}
 	}
+}
+
+// codeFlow runs a complete, fitting authorization-code flow for client c.
+func (g *gen) codeFlow(c string, emit func(string, M) M) {
+	cl := g.w.Clients[c]
+	if len(cl.URIs) == 0 {
+		return
+	}
+	chall, ver := "none", "none"
+	if cl.Auth == "none" || g.rng.Intn(3) == 0 {
+		chall, ver = "s256:v1", "v1"
+	}
+	out := emit("Authorize", M{"client": c, "uri": cl.URIs[0], "rtype": "code", "rmode": "", "scopes": []string{"openid", "email", "offline_access"},
+		"chall": chall, "state": "st1", "nonce": "n1"})
+	req := S(out, "req")
+	emit("Login", M{"req": req, "user": g.pick("u1", "u2")})
+	out = emit("Callback", M{"req": req})
+	emit("CodeExchange", M{"caller": c, "cred": g.rightCred(c), "code": S(out, "code"), "uri": cl.URIs[0], "verifier": ver})
 }
 
 type gen struct {
@@ -136,7 +177,10 @@ var focusWeights = map[string]map[string]int{
 	"tokenuse": {"Authorize": 3, "Login": 3, "Callback": 4, "CodeExchange": 5, "Refresh": 1, "UserInfo": 4, "Introspect": 5, "Revoke": 4, "Expire": 1, "EndSession": 2},
 	"device":   {"DeviceAuthorize": 4, "Approve": 3, "Deny": 1, "ExpireDevice": 1, "Poll": 10, "UserInfo": 1},
 	"logout":   {"Authorize": 3, "Login": 3, "Callback": 4, "CodeExchange": 5, "EndSession": 8, "UserInfo": 1},
-	"all": {"Authorize": 3, "Login": 3, "Callback": 4, "CodeExchange": 5, "Refresh": 3, "UserInfo": 2, "Introspect": 2, "Revoke": 2,
+	"exchange": {"Authorize": 3, "Login": 3, "Callback": 4, "CodeExchange": 6, "TokenExchange": 12, "Revoke": 1, "Expire": 1, "UserInfo": 1, "Introspect": 1},
+	"clientauth": {"Authorize": 3, "Login": 3, "Callback": 4, "CodeExchange": 5, "Refresh": 3, "Introspect": 3, "Revoke": 3,
+		"DeviceAuthorize": 3, "Approve": 1, "Poll": 3, "ClientCreds": 4, "JWTBearer": 2, "TokenExchange": 4},
+	"all": {"ClientCreds": 1, "JWTBearer": 1, "TokenExchange": 3, "Authorize": 3, "Login": 3, "Callback": 4, "CodeExchange": 5, "Refresh": 3, "UserInfo": 2, "Introspect": 2, "Revoke": 2,
 		"Expire": 1, "EndSession": 2, "DeviceAuthorize": 2, "Approve": 1, "Deny": 1, "ExpireDevice": 1, "Poll": 3},
 }
 
@@ -279,6 +323,29 @@ func (g *gen) next() (string, M) {
 		return op, M{"caller": c, "cred": cred, "kind": "at", "tok": t, "hint": g.pick("none", "access_token", "refresh_token")}
 	case "Expire":
 		return op, M{"id": g.existing(d.atRaw, "a99")}
+	case "ClientCreds":
+		c := g.pick("cs", "cs", "cs", "cw", "cd", "cp", "cz")
+		cred := g.rightCred(c)
+		if g.rng.Intn(3) == 0 {
+			cred = g.cred(c)
+		}
+		return op, M{"caller": c, "cred": cred, "scopes": [][]string{{}, {"api"}, {"openid", "api"}}[g.rng.Intn(3)]}
+	case "JWTBearer":
+		return op, M{"iss": g.pick("cj", "cj", "cw", "cz"), "key": g.pick("own", "own", "foreign"), "scopes": [][]string{{"openid"}, {"openid", "email", "api"}}[g.rng.Intn(2)]}
+	case "TokenExchange":
+		c := g.pick("cw", "cw", "cw", "cs", "cx", "cz")
+		cred := g.rightCred(c)
+		if g.rng.Intn(5) == 0 {
+			cred = g.cred(c)
+		}
+		subj := g.ref(false)
+		actor := M{"kind": "none", "form": "none", "id": "none", "declared": "none"}
+		if g.rng.Intn(3) == 0 {
+			actor = g.ref(true)
+		}
+		return op, M{"caller": c, "cred": cred, "subj": subj, "actor": actor,
+			"requested": g.pick("", "access", "access", "refresh", "id", "jwt", "unknown"),
+			"scopes": [][]string{{"openid"}, {"openid", "email"}, {"openid", "email", "profile"}}[g.rng.Intn(3)]}
 	case "DeviceAuthorize":
 		c := g.pick("cx", "cx", "cp", "cp", "cd", "cd", "cw", "cz")
 		cred := g.rightCred(c)
@@ -311,6 +378,38 @@ func (g *gen) next() (string, M) {
 			hint = M{"kind": g.pick("valid", "valid", "expired", "wrongkey", "wrongiss", "algnone"), "id": g.existing(d.idtRaw, "i99")}
 		}
 		return "EndSession", M{"hint": hint, "client": g.pick("", "", "cw", "cx", "cj"), "uri": g.pick("", "plcw", "plcx", "plcj", "evil"), "state": g.pick("", "ls1", "l s+2&=")}
+	}
+}
+
+// ref produces a token reference for a token-exchange request.
+func (g *gen) ref(preferGood bool) M {
+	d := g.d
+	switch k := g.rng.Intn(10); {
+	case k < 5:
+		t := g.tok()
+		if preferGood {
+			t["form"] = "issued"
+		}
+		decl := "access"
+		if g.rng.Intn(5) == 0 && S(t, "form") == "issued" {
+			decl = g.pick("refresh", "id", "jwt", "unknown")
+		}
+		return M{"kind": "access", "form": S(t, "form"), "id": S(t, "id"), "declared": decl}
+	case k < 7:
+		decl := "refresh"
+		if g.rng.Intn(8) == 0 {
+			decl = "access"
+		}
+		return M{"kind": "refresh", "form": "issued", "id": g.existing(d.rtRaw, "f99"), "declared": decl}
+	default:
+		if len(d.idtRaw) == 0 {
+			return M{"kind": "access", "form": "garbage", "id": "a99", "declared": "access"}
+		}
+		form := g.pick("valid", "valid", "valid", "expired", "wrongkey", "wrongiss", "algnone")
+		if preferGood {
+			form = "valid"
+		}
+		return M{"kind": "id", "form": form, "id": g.existing(d.idtRaw, "i99"), "declared": "id"}
 	}
 }
 
